@@ -10,7 +10,7 @@ canonical re-encoding (what `to_json_string` of the decoded Rust value prints). 
 namespace Sylvia.Serde
 
 inductive VTy
-  | u (bits : Nat) | i (bits : Nat) | bool | string | uint128 | addr | empty
+  | u (bits : Nat) | i (bits : Nat) | bool | string | uint128 | addr | empty | binary
   | option (t : VTy) | vec (t : VTy) | pair (a b : VTy)
   deriving Repr, DecidableEq, Inhabited
 
@@ -30,6 +30,13 @@ def canonInt (t : String) : Option Int :=
     | none => none
   | _ => (canonNat t).map Int.ofNat
 
+/-- base64 text as `cosmwasm_std::Binary` accepts it: alphabet, length a multiple of four, at most two trailing `=`
+(whether the unused trailing bits are zero is not modelled; the generators only produce canonical encodings) -/
+def isBase64 (s : String) : Bool :=
+  let cs := s.toList
+  let body := (cs.reverse.dropWhile (· == '=')).reverse
+  cs.length % 4 == 0 && cs.length - body.length ≤ 2 && body.all fun c => c.isAlphanum || c == '+' || c == '/'
+
 def isOption : VTy → Bool | .option _ => true | _ => false
 
 /-- `Default::default()` of the type, in JSON -/
@@ -38,6 +45,7 @@ def defaultOf : VTy → Json
   | .bool => .bool false
   | .string | .addr => .str ""
   | .uint128 => .str "0"
+  | .binary => .str ""
   | .empty => .obj []
   | .option _ => .null
   | .vec _ => .arr []
@@ -54,6 +62,7 @@ def decodeVal (viaValue : Bool) : VTy → Json → Option Json
   | .string, .str s => some (.str s)
   | .addr, .str s => some (.str s)
   | .uint128, .str s => (canonNat s).bind fun n => if n < 2 ^ 128 then some (.str s) else none
+  | .binary, .str s => if isBase64 s then some (.str s) else none
   | .empty, .obj _ => some (.obj [])
   | .empty, .arr _ => if viaValue then some (.obj []) else none   -- positional struct; surplus elements are not checked
   | .option _, .null => some .null
